@@ -18,10 +18,11 @@ From Thunder Require Import Lib.Json DiffMerge.Model Server.Model Server.Spec Se
      Server.ProofsConv Server.Witness Server.ProofsC02.
 Import ListNotations.
 
-(** Convergence.  After any history, the client of a subscription that has completed at least one
-    computation holds the key-stripped result of the last successful one. *)
+(** Convergence.  After any history in which no socket write has failed ([st_wfail s = false]: the client is
+    still there to receive), the client of a subscription that has completed at least one computation holds
+    the key-stripped result of the last successful one. *)
 Theorem convergence : forall cfg h s rid r,
-  forallb good_label h = true -> run cfg init h = Some s ->
+  forallb good_label h = true -> run cfg init h = Some s -> st_wfail s = false ->
   st_runners s rid = Some r -> r_kind r = KSub -> r_initial r = false ->
   jeq (client_state rid s) (strip (r_prev r)).
 Proof. exact ProofsC02.convergence_l. Qed.
@@ -36,7 +37,7 @@ Print Assumptions run_stores_result.
 
 (** The first envelope a subscription writes is a full update [[v]] (or the error that ends it). *)
 Theorem first_message_full : forall cfg h s rid r,
-  forallb good_label h = true -> run cfg init h = Some s ->
+  forallb good_label h = true -> run cfg init h = Some s -> st_wfail s = false ->
   st_runners s rid = Some r -> r_kind r = KSub ->
   match writes_of rid s with [] => True | e :: _ => is_full e \/ e_type e = EError end.
 Proof. exact ProofsC02.first_message_full_l. Qed.
